@@ -107,7 +107,9 @@ Inductive op :=
 | OEnd
 | OAdjust (a : N) (d : Z).   (* balance movement of a tracked account caused by a non-governance transaction *)
 
-Record txop := mkTx { t_op : op; t_env : env; t_payer : N; t_fee : Z }.
+Record txop := mkTx { t_op : op; t_env : env; t_payer : N; t_fee : Z;
+  t_cur : N   (* currency named in the transaction's amount (create / fund / withdraw): 0 = OLT, anything else = another
+                 registered currency, an unknown name or the empty string *) }.
 
 (* ---- small helpers ---- *)
 Definition bal (s : state) (a : N) : Z := default 0 (g_bal s !! a).
@@ -448,6 +450,11 @@ Definition charge (r : hres) (payer : N) (fee : Z) : hres :=
   | None => None
   end.
 
+(* Validate of PROPOSAL_CREATE / PROPOSAL_FUND / PROPOSAL_WITHDRAW_FUNDS (run by CheckTx and, since /repo d276709, by
+   DeliverTx before the handler): the amount must be denominated in OLT, whatever the sender owns *)
+Definition cur_ok (t : txop) : bool := N.eqb (t_cur t) 0.
+Definition cguard (b : bool) (r : hres) : hres := if b then r else None.
+
 (* one step: returns the new state, ok/fail, and the events *)
 Definition step (s : state) (t : txop) : state * bool * list event :=
   let e := t_env t in
@@ -456,11 +463,11 @@ Definition step (s : state) (t : txop) : state * bool * list event :=
   | OBegin h => (begin_block s h, true, [])
   | OEnd => let '(s', ev) := end_block s e in (s', true, ev)
   | OCreate id ty pr amt fdl vdl goal pass cv =>
-      fin (charge (h_create s e id ty pr amt fdl vdl goal pass cv) (t_payer t) (t_fee t))
-  | OFund id f amt => fin (charge (h_fund s e id f amt) (t_payer t) (t_fee t))
+      fin (charge (cguard (cur_ok t) (h_create s e id ty pr amt fdl vdl goal pass cv)) (t_payer t) (t_fee t))
+  | OFund id f amt => fin (charge (cguard (cur_ok t) (h_fund s e id f amt)) (t_payer t) (t_fee t))
   | OVote id v o => fin (charge (h_vote s e id v o) (t_payer t) (t_fee t))
   | OCancel id pr => fin (charge (h_cancel s id pr) (t_payer t) (t_fee t))
-  | OWithdraw id f amt ben => fin (charge (h_withdraw s id f amt ben) (t_payer t) (t_fee t))
+  | OWithdraw id f amt ben => fin (charge (cguard (cur_ok t) (h_withdraw s id f amt ben)) (t_payer t) (t_fee t))
   | OExpire id => fin (h_expire s id)
   | OFinalize id => fin (h_finalize s e id)
   | OAdjust a d => fin (charge (Some (add_bal s a d, [])) (t_payer t) (t_fee t))
